@@ -3,7 +3,7 @@
    chosen set of contacts and never answers find_node.
 
      mpass <idx> root=<hex20> nosec=<0|1> booted=<0|1> nodes=<node>,<node>... answers=<ans>,<ans>... oanswers=<ans>,... fanswers=<ans>,...
-        => boot:<addrs> [ping:<i>:<addrs>] [refresh:<i>:<addrs>] ... break:<i>|done after:<entry>;<entry>...
+        => boot:<addrs> [ping:<i>:<addrs>] [refresh:<i>:<addrs>] ... after:<entry>;<entry>...
        <node>  = slot/idhex/iphex/port/query-age-ns/response-age-ns/failed/class   (age -1: never; class g|q|b as the
                  implementation classifies the entry: checked against the model's classification first)
        <ans>   = idhex/iphex/port          (answers: entries whose host answers a ping under the entry's id; oanswers: entries whose host
@@ -11,7 +11,7 @@
                  answer find_node with an empty node list)
        <addrs> = iphex:port;iphex:port...  sorted, `-` when empty     <entry> = idhex/iphex:port/class/failed
      Model: RunMaint.rm_boot (who the initial bootstrap asks) and RunMaint.rm_pass = Maint.pass with the silent
-     refresh; empty ping rounds are not printed (they cost no datagram). *)
+     refresh; empty ping rounds, refreshes without a seed and the end of the pass are not printed (they cost no datagram). *)
 open Model
 open Driver
 
@@ -62,9 +62,8 @@ let () =
             let (tag, (i, l)) = rm_phase_view p in
             match int_of_n tag with
             | 0 -> if l = [] then None else Some (Printf.sprintf "ping:%d:%s" (int_of_nat i) (set_tok l))
-            | 1 -> Some (Printf.sprintf "refresh:%d:%s" (int_of_nat i) (set_tok l))
-            | 2 -> Some (Printf.sprintf "break:%d" (int_of_nat i))
-            | _ -> Some "done") phases in
+            | 1 -> if l = [] then None else Some (Printf.sprintf "refresh:%d:%s" (int_of_nat i) (set_tok l))
+            | _ -> None) phases in   (* a refresh without seeds, and where the pass ends, cannot be seen on the wire *)
         let after = List.sort compare (List.map (fun n ->
             Printf.sprintf "%s/%s/%s/%s" (hex20_of_n (rm_node_id n)) (addr_tok n) (cls_tok c now_ns n)
               (tok_of_bool (rm_node_failed n))) final) in
